@@ -440,6 +440,10 @@ class PolygonTensor(PolytopeTensor):
             arr = np.delete(self.array, np.ravel_multi_index((*tuple(np.indices(s[:-1])), i), s))
             arr = arr.reshape(s[:-1] + (-1,))
 
+            if isinstance(other, Point) and i.ndim > 1:
+                # a single point is tested against every polygon of the collection
+                other = PointCollection(np.broadcast_to(other.array, i.shape[:-1] + other.shape), copy=False)
+
             if isinstance(other, Point) and i.ndim == 1:
                 other = Point(np.delete(other.array, i), copy=False)
             else:
